@@ -286,7 +286,8 @@ impl<L: Language, N: Analysis<L>> EGraph<L, N> {
                 // symmetry of the class, it shows that the exchanged slot is redundant as well.
                 if a.slots() != b.slots() {
                     self.union_internal(&a, &b, proof);
-                    return;
+                    // the class has shrunk: the remaining variants have to be judged against it.
+                    return self.determine_self_symmetries(src_id);
                 }
 
                 // `proof` shows a = b, i.e. id[identity] = id[b.m * a.m^-1].
